@@ -114,7 +114,7 @@ def rule_generators(ctx, res):
                     okg = False
             else:
                 e2 = strip_transparent(end)
-                if not (end[0] == 'bin' and end[1] == 'Add' and is_param(end[2], 'next_alloc') and term_int(end[3]) == ln):
+                if not (e2[0] == 'bin' and e2[1].replace('WithOverflow', '') == 'Add' and is_param(strip_transparent(e2[2]), 'next_alloc') and term_int(strip_transparent(e2[3])) == ln):
                     okg = False
         # fill loop: ids[index] = value over enumerate(start..end)
         okf = False
@@ -123,6 +123,19 @@ def rule_generators(ctx, res):
                 for e in lib.writes_of(p):
                     if e[1][0] == 'index' and field_chain(e[1][2])[-2:] == ['0', '0'] and field_chain(e[2])[-2:] == ['0', '1'] and find_calls(e[2], '::enumerate'):
                         okf = True
+                    # the same fill written as `for (slot, id) in ids.iter_mut().zip(start..end) { *slot = id }`
+                    z = find_calls(e[2], '::zip')
+                    if z and field_chain(strip_transparent(e[1]))[-2:] == ['0', '0'] and field_chain(strip_transparent(e[2]))[-2:] == ['0', '1'] and find_calls(e[1], '::zip') == z:
+                        slots, vals = strip_transparent(z[0][2][0]), strip_transparent(z[0][2][1])
+                        while isinstance(vals, tuple) and vals and vals[0] == 'call' and vals[1].split('::')[-1] in ('clone', 'into_iter'):
+                            vals = strip_transparent(vals[2][0])
+                        whole = isinstance(slots, tuple) and slots[0] == 'call' and slots[1].split('::')[-1] == 'iter_mut' and 'repeat' in fmt(slots) and not find_calls(slots, '::index')
+                        if whole and isinstance(vals, tuple) and vals[0] == 'agg' and vals[1].startswith('std::ops::Range::'):
+                            st_, en_ = strip_transparent(vals[2].get('start')), strip_transparent(vals[2].get('end'))
+                            span_ok = (term_int(st_) is not None and term_int(en_) is not None and term_int(en_) - term_int(st_) == ln) or \
+                                      (en_[0] == 'bin' and en_[1].replace('WithOverflow', '') == 'Add' and strip_transparent(en_[2]) == st_ and term_int(strip_transparent(en_[3])) == ln)
+                            if span_ok:
+                                okf = True
         res.check(okg and okf, 'TABLE', gfn, 'block = [start, start + 2048) with start = 0 when next_alloc == MAX (wrap) else next_alloc; every slot of the block array is filled', site=g.span)
     # composition and decomposition
     b = ctx.body(T + 'TransactionID::new')
